@@ -71,7 +71,7 @@ def gen_misc():
     for hk in ("null", "foreign", "destroyed"):
         for c in ("call", "status", "load_config"):
             yield ["invalid", [hk, c]]
-    for a, b in itertools.product(["set-global", "log", "error-middle", "load-config", "late-logger"], repeat=2):
+    for a, b in itertools.product(["set-global", "log", "error-middle", "load-config", "late-logger", "assembly-bad", "assembly-ok", "parse-error", "pp-error", "load-config-bad"], repeat=2):
         yield ["two", [a, b]]
     for gap_ms in (0, 30, 60, 5000):
         for c in ("value", "late-logger", "log"):
